@@ -30,7 +30,7 @@ Ltac qinv_solve :=
 Ltac same_queues := first
   [ eapply allq_same_queues; [first
       [ apply queues_set_chan | apply queues_upd_chan | apply queues_upd_msg | apply queues_ensure_chan
-      | apply queues_add_confirm | apply queues_store_windows | apply queues_wake_consumer ] | ]
+      | apply queues_add_confirm | apply queues_store_windows | apply queues_wake_consumer | apply queues_wake_consumers ] | ]
   | match goal with |- allq _ (@set _ _ _ _ _ ?s) => apply (allq_same_queues _ s); [reflexivity|] end ].
 
 (* goal: QI (e) where e is built from queue-preserving primitives over a state known to satisfy QI *)
@@ -94,11 +94,7 @@ Qed.
 Lemma QI_dec_qos cfg s c h u : QI s -> QI (dec_qos_and_consume_next cfg s c h u).
 Proof.
   intros H. unfold dec_qos_and_consume_next. destruct (get_chan s c h) as [ch|]; auto.
-  destruct (find_consumer ch (u_ctag u)).
-  - destruct (wake_consumer s c h (u_ctag u)) as [s1 b] eqn:Ew.
-    assert (H1 : QI s1) by (replace s1 with (fst (wake_consumer s c h (u_ctag u))) by (rewrite Ew; reflexivity); apply QI_wake; auto).
-    sq.
-  - sq.
+  same_queues. sq.
 Qed.
 
 Lemma QI_chan_ackmsg s u : QI s -> QI (chan_ackmsg s u).
@@ -212,27 +208,15 @@ Proof.
                      | match goal with |- allq _ (if ?b then _ else _) => destruct b end ]).
 Qed.
 
-Lemma QI_rr_scan n : forall cnt s qn, QI s -> QI (rr_scan n cnt s qn).
-Proof.
-  induction n as [|n IH]; intros cnt s qn H; simpl; auto.
-  destruct (get_queue s qn) as [qu|] eqn:Eq; auto.
-  destruct (negb (q_active qu)); auto.
-  pose proof (allq_get _ _ _ _ H Eq) as Hq.
-  set (s1 := set_queue s qn _).
-  assert (H1 : QI s1) by (subst s1; apply allq_set_queue; auto; unfold qinv in *; cbn; tauto).
-  clearbody s1.
-  destruct (nth_error _ _) as [[[c h] tag]|]; auto.
-  destruct (wake_consumer s1 c h tag) as [s2 b] eqn:Ew. apply fst_pair in Ew. subst s2.
-  destruct b; [apply QI_wake; auto|apply IH; apply QI_wake; auto].
-Qed.
-
 Lemma QI_queue_loop_turn s qn : QI s -> QI (queue_loop_turn s qn).
 Proof.
   intros H. unfold queue_loop_turn. destruct (get_queue s qn) as [qu|] eqn:Eq; auto.
   destruct (negb (q_call qu)); auto.
   pose proof (allq_get _ _ _ _ H Eq) as Hq.
   assert (H1 : QI (set_queue s qn (qu <| q_call := false |>))) by (apply allq_set_queue; auto; unfold qinv in *; cbn; tauto).
-  destruct (Nat.eqb _ 0); auto. apply QI_rr_scan; auto.
+  destruct (Nat.eqb _ 0); auto.
+  apply allq_upd_queue; [intros q0 Hq0; unfold qinv in *; cbn; tauto|].
+  apply fold_left_preserves; auto. intros s0 [[c h] tag] H0. apply QI_wake; auto.
 Qed.
 
 (* ---- publish ---- *)
@@ -303,7 +287,7 @@ Proof.
     pose proof (QI_vhost_delete_queue s q ifunused ifempty H) as Hd.
     destruct (vhost_delete_queue false s q ifunused ifempty) as [[s1 e1] r1]. cbn [fst] in *.
     destruct r1; exact Hd.
-  - (* MQos *) cbn [fst]. sq.
+  - (* MQos *) cbn [fst]. same_queues. sq.
   - (* MPublish *)
     destruct imm; [exact H|]. destruct (alookup _ _ _); [|exact H].
     destruct (if ch_confirm ch then _ else _) as [conf ch']. cbn [fst]. sq.
